@@ -86,14 +86,15 @@ def oracle(stream):
         try:
             codecs.lookup(charset)
             return ("ok", status, meta, rest.decode(charset))
-        except (LookupError, UnicodeDecodeError):
+        except (LookupError, ValueError):      # unknown / non-text codec, undecodable bytes, the 'undefined' codec, NUL in the label
             return ("error",)
     return ("ok", status, meta, rest)
 
 
 STREAMS = [
     b"20 text/gemini\r\n# hi\n", b"20 text/gemini; charset=utf-8\r\nh\xc3\xa9llo", b"20 text/plain; charset=iso-8859-1\r\nh\xe9llo",
-    b"20 text/plain; charset=klingon\r\nabc", b"20 text/plain;charset=\"UTF-8\"\r\nx", b"20 text/gemini\r\n\xff\xfe", b"20 image/png\r\n\x89PNG\r\n\x00",
+    b"20 text/plain; charset=klingon\r\nabc", b"20 text/plain; charset=undefined\r\nabc", b"20 text/plain; charset=a\x00b\r\nabc", b"20 text/plain; charset=rot13\r\nabc",
+    b"20 text/gemini; charset=\r\nabc", b"20 text/plain;charset=\"UTF-8\"\r\nx", b"20 text/gemini\r\n\xff\xfe", b"20 image/png\r\n\x89PNG\r\n\x00",
     b"20 \r\nbody", b"20\r\nbody", b"31 gemini://other.example/\r\nignored body", b"51 Not found\r\n", b"10 Enter a value\r\n", b"60 cert\r\nxx",
     b"99 too high\r\n", b"09 low\r\n", b"xx nonsense\r\n", b"\xff\xfe bad header\r\n", b"no crlf at all", b"", b"2", b"20 text/gemini\r",
     b"44 slow down\r\n", b"20 text/gemini\r\n" + b"a" * 70000,
@@ -123,9 +124,23 @@ def over_cap(cls, stream, chunk=1 << 20):
     return asyncio.run(go())
 
 
+def exactly_cap(cls, cap):
+    """a body of exactly the size cap is within the cap: it must be delivered"""
+    stream = b"20 application/octet-stream\r\n" + b"z" * cap
+    r = feed(cls, stream, [17, 4096, cap // 2])
+    return r
+
+
 def bank(focus=None):
     tried = 0
     cap = 10 * 1024 * 1024
+    for cls in (GeminiClientProtocol, TitanClientProtocol):
+        tried += 1
+        r = exactly_cap(cls, cap)
+        if not (r.get("done") and r.get("status") == 20 and isinstance(r.get("body"), bytes) and len(r["body"]) == cap):
+            return dict(confirmed=True, input=dict(protocol=cls.__name__, server_bytes=f"'20 application/octet-stream' + a body of exactly the cap ({cap} bytes)"),
+                        observed=dict(violated=[f"a response within the size cap was not delivered: {({k: v for k, v in r.items() if k not in ('body', 'sent')})!r}"]),
+                        clause="[C13] only a server that sends MORE than the size cap is cut off")
     for cls in (GeminiClientProtocol, TitanClientProtocol):
         for name, stream in (("no header line at all", b"2" * (cap + 2)), ("header then an over-long body", b"20 text/gemini\r\n" + b"a" * (cap + 2)),
                              ("header split before LF then an over-long body", b"20 text/gemini\r" + b"\n" + b"a" * (cap + 2))):
